@@ -146,17 +146,26 @@ struct Ctx {
   std::string outdir; int nshards=16; uint64_t seed=1; bool thorough=false;
   std::vector<FILE*> shards; size_t rr=0; std::string stream;
   FILE* viol=nullptr; char* cur=nullptr; size_t curcap=1<<16;
+  bool pair=false; std::vector<std::string>* capture=nullptr;   // C19: pair mode, see AW() below
   long long evaluations=0, events=0, violations=0; std::unordered_set<uint64_t> distinct; std::vector<std::string> samples;
   void open(const std::string&dir,const std::string&name,int n);
   void set_case(const std::string&s){ if(cur){ size_t k=std::min(s.size(),curcap-1); memcpy(cur,s.data(),k); cur[k]=0; } }
-  void event(const std::string&json){ FILE*f=shards[rr++%shards.size()]; fputs(json.c_str(),f); fputc('\n',f); ++events; }
-  void event_to(size_t shard,const std::string&json){ FILE*f=shards[shard%shards.size()]; fputs(json.c_str(),f); fputc('\n',f); ++events; }
+  void event(const std::string&json){ if(capture){ capture->push_back(json); return; } FILE*f=shards[rr++%shards.size()]; fputs(json.c_str(),f); fputc('\n',f); ++events; }
+  void event_to(size_t shard,const std::string&json){ if(capture){ capture->push_back(json); return; } FILE*f=shards[shard%shards.size()]; fputs(json.c_str(),f); fputc('\n',f); ++events; }
   void violation(const std::string&json){ ++violations; if(violations<=200){ fputs(json.c_str(),viol); fputc('\n',viol); fflush(viol);} }
   void count(const std::string&key,bool nontrivial){ ++evaluations; if(nontrivial) distinct.insert(fnv(key)); }
   void sample(const std::string&json){ if(samples.size()<6) samples.push_back(json); }
   void close(const std::string&extra="");
 };
 extern Ctx g;
+// C19 — every driver dispatches a case to the char or the wchar_t instantiation through AW().  Normally one of the two runs (pickA).
+// In pair mode (--pair 1) BOTH run on the same case, the events each records are captured, and the i-th event of the narrow run is
+// emitted next to the i-th event of the wide run as one Pair event; Trace_Pair requires them to be the same record (field "w" apart).
+// `narrow` = the case is representable in both character types (otherwise only the wide variant runs and nothing is paired).
+template<class FA,class FW> inline void AW(bool narrow,bool pickA,FA fa,FW fw,size_t shard=(size_t)-1){
+  if(!g.pair||!narrow){ if(narrow&&pickA) fa(); else fw(); return; }
+  std::vector<std::string> ea,ew; g.capture=&ea; fa(); g.capture=&ew; fw(); g.capture=nullptr; size_t n=std::max(ea.size(),ew.size());
+  for(size_t i=0;i<n;++i){ std::string j="{\"e\":\"Pair\",\"i\":"+std::to_string(i); if(i<ea.size()) j+=",\"a\":"+ea[i]; if(i<ew.size()) j+=",\"w\":"+ew[i]; j+="}"; if(shard==(size_t)-1) g.event(j); else g.event_to(shard,j); } }
 
 // ---------------------------------------------------------------- guarded memory
 // An arena whose last usable byte is directly followed by a PROT_NONE page.
